@@ -186,7 +186,7 @@ pub fn run(a: &Args) {
     let variants: Vec<(u16, [u16; 4])> = if thorough {
         vec![(0x1234, [0, 0, 0, 0]), (0, [1, 1, 1, 1]), (0xFFFF, [2, 0, 1, 3]), (0x8001, [0, 3, 0, 0]), (0x00FF, [1, 0, 2, 1])]
     } else {
-        vec![(0x1234, [0, 0, 0, 0]), (0xFFFE, [2, 1, 0, 3])]
+        vec![(0x1234, [0, 0, 0, 0]), (0xFFFE, [2, 1, 0, 3]), (0, [1, 0, 0, 0]), (0xFFFF, [0, 1, 1, 0])]
     };
     let mut st = Stats::default();
     emit_words(&mut out, &mut st, &variants);
